@@ -38,6 +38,14 @@ CHECKS = {
    technique="TLA+ specs Bdd.tla (evaluator semantics, well-formedness) and WordOps.tla; tables extracted from the compiled crate (hook H1); TLC for structure + dictionary evaluation + binding of WordOps to plain Rust; Apalache (SMT) for all 2^64 inputs per (op, output bit)",
    text="The 290 compiled bit circuits are read out of the built crate, checked structurally by TLC (reachable indices in range, no reachable undefined slot, last chunk [Cmux, None..], declared width covers every level), evaluated by TLC under the level-by-level selection semantics on a boundary dictionary x dictionary and seeded random pairs against WordOps.tla (itself bound to the plain Rust word operations on the same pairs), and for ALL 2^64 inputs one Apalache obligation per (operation, output bit) states circuit == word-operation bit. thorough discharges all 290; quick discharges every obligation whose table row is not in the committed proved-hash cache (i.e. any changed table) plus a seeded sample of 8.",
    note="Trusted: Apalache+z3, TLC, the H1 extractor, tools/gen_bdd_tla.py (node / auxiliary-signal encoding; its spec recurrences mirror WordOps.tla). spec/BinFhe/proved.json is a regression cache written by a thorough run on this tree; it is keyed by table row + generator source so any table or generator change forces re-proof. The homomorphic realisation of Cmux is C04/C15."),
+ "C01": dict(level=MC, design="§2 C01",
+   technique="TLA+ specs Glwe.tla / CoreTrace.tla: TLC-enumerated enc;dec programs replayed on 4 back-ends, each step validated by TLC which recomputes the decryption phase from raw limbs and the clear secret",
+   text="CoreTrace.tla keeps the register file of a program and, for every logged step of the real library, recomputes the phase body + sum mask_c*s_c with schoolbook negacyclic products (nothing shared with the FFT/NTT). Fresh encryptions (secret-key, zero, public-key, seed-compressed+decompress) must satisfy |phase - message at its torus position| <= bound*2^(S*b-k) (times 1+N+|s|_1 for public-key), decryptions must equal the phase within one unit of the plaintext's last limb, for plaintext precisions below/equal/above the ciphertext's and other radices. TLC enumerates the configuration grid (radix, k not a multiple of the radix, rank, secret distribution incl. zero, message classes with extreme digits, noise parameters).",
+   note="N=8 (16 thorough), radices 2..6 so that phases are native TLC integers; realistic sizes only through C10 agreement. LWE encryption/decryption not covered yet. Known finding: plaintext of another radix in glwe_encrypt_sk."),
+ "C02": dict(level=MC, design="§2 C02",
+   technique="TLA+ specs Glwe.tla / CoreTrace.tla + MC_C02 (linearity for every secret) + TLC-simulated random straight-line programs (Gen_C02) replayed on the real library and validated step by step",
+   text="MC_C02 model-checks, for every secret in {-1,0,1}^N, that the phase commutes exactly with limb-wise add/sub/negate, X^k, (X^k-1) and with cutting to fewer limbs (and the one-unit cost of a cut for normalised digits). Gen_C02 is a state machine over register shapes whose actions are the public calls of api/operations.rs with the API's assertions as enabling conditions; TLC simulation emits random programs (depth 12, 4 registers) that the harness runs on 4 back-ends; CoreTrace validates every step: linear operations exactly on operands cut to the result's limb count, shifts and re-normalisation (also into another radix) column-wise within one unit of the result's last limb, in-place and accumulate forms included.",
+   note="Rank-1 programs at N=8, radices 3 and 5; rank-0 plaintext operands, mixed ranks and GGSW rotate pending. The phase-level 'one unit per truncated operand' is implied by the exact / column-wise statements (see DESIGN.md on why the phase-level bound of a rounding step is key dependent)."),
 }
 NA_REASON = "check not built yet in this round (planned in DESIGN.md §2); not claimed"
 
